@@ -9,6 +9,7 @@ import (
 	"hash/fnv"
 	"os"
 	"path/filepath"
+	"runtime/debug"
 	"sort"
 	"strconv"
 	"strings"
@@ -159,6 +160,10 @@ type Run struct {
 
 func NewRun(prop string, seed uint64, tier, out string, budget float64) *Run {
 	os.MkdirAll(out, 0o755)
+	// a runaway recursion of (changed) code under test ends in "fatal error: stack overflow", which no recover()
+	// catches: keep the limit low so that it ends quickly; Do leaves the case in current-case.ops for bin/check
+	debug.SetMaxStack(256 << 20)
+	os.Remove(filepath.Join(out, "current-case.ops"))
 	fo, err := os.Create(filepath.Join(out, "ops.txt"))
 	if err != nil {
 		panic(err)
@@ -204,6 +209,18 @@ func (r *Run) Do(component string, c Case, exec Exec) Result {
 		return Result{BadOp: -1}
 	}
 	r.n++
+	// what is being executed, for the case that the process does not survive it (stack overflow, fatal runtime
+	// error, out of memory): bin/check turns the file into the replay of a violation when the harness dies
+	cur := filepath.Join(r.Out, "current-case.ops")
+	{
+		var b strings.Builder
+		fmt.Fprintf(&b, "# property=%s component=%s seed=%d\n# the harness process died while executing this case\n# case 1 %s\n", r.Prop, component, r.Seed, c.Header)
+		for _, op := range c.Ops {
+			b.WriteString(op)
+			b.WriteByte('\n')
+		}
+		os.WriteFile(cur, []byte(b.String()), 0o644)
+	}
 	// Safety net: an executor without a watchdog of its own must not let a non-returning operation of
 	// (changed) code under test stall the whole check. A case that does not come back within
 	// CaseTimeout is recorded as a hang: inadmissible for every property (no operation of the modelled
@@ -279,6 +296,7 @@ func (r *Run) Do(component string, c Case, exec Exec) Result {
 }
 
 func (r *Run) Finish() {
+	os.Remove(filepath.Join(r.Out, "current-case.ops"))
 	r.ops.Flush()
 	r.impl.Flush()
 	r.fo.Close()
